@@ -54,7 +54,7 @@ def evaluate(case):
             id_resolved = any(isinstance(c, IdCitation) for v in resolved.values() for c in v)
     anns = [(c.span(), "<a>", "</a>") for c in cites]
     for mode in MODES:
-        out = call(annotate_citations, text, anns, unbalanced_tags=mode)
+        out = call(annotate_citations, text, iter(anns) if mode == "skip" and len(text) % 2 else anns, unbalanced_tags=mode)
         if isinstance(out, Raised):
             res.v(f"annotate_citations[{mode}]:" + out.bucket(), repr(out))
         elif not isinstance(out, str):
